@@ -1244,6 +1244,18 @@ CALL_PATHS = {
     "macro_caller_param_kw": ("{% macro cm(caller=none) %}{{ caller(@A@) }}{% endmacro %}{{ cm(caller=@U@) }}", 1),
     "macro_caller_param_pos": ("{% macro cm(caller=none) %}{{ caller(@A@) }}{% endmacro %}{{ cm(@U@) }}", 1),
 }
+# the i18n extension's `_` alias looks the name `gettext` up in the context and calls it: the callable bound to
+# `gettext` by a set statement (top level, loop scope, block scope) or supplied as a context variable
+CALL_PATHS.update({
+    "i18n_alias_set": ("{% set gettext = @U@ %}{{ _(@A@) }}", 2),
+    "i18n_alias_loop_set": ("{% for i in [1] %}{% set gettext = @U@ %}{{ _(@A@) }}{% endfor %}", 2),
+    "i18n_alias_block_set": ("{% block bq %}{% set gettext = @U@ %}{{ _(@A@) }}{% endblock %}", 2),
+    "i18n_alias_stored": ("{% set gettext = @U@ %}{% set tr = _ %}{{ tr(@A@) }}", 3),
+    "i18n_alias_filter_arg": ("{% set gettext = @U@ %}{{ nope|default(_(@A@)) }}", 2),
+    "i18n_alias_ctx": ("{{ _(@A@) }}", 2),
+    "i18n_alias_ctx_in_macro": ("{% macro cm() %}{{ _(@A@) }}{% endmacro %}{{ cm() }}", 2),
+    "i18n_alias_ctx_call_block": ("{% macro cm() %}{{ caller() }}{% endmacro %}{% call cm() %}{{ _(@A@) }}{% endcall %}", 2),
+})
 # the callable bound to a name the engine treats specially: set / with / for target / macro parameter / context variable
 SPECIAL_NAMES = ["caller", "varargs", "kwargs", "self", "super", "loop", "context", "environment", "undefined", "missing",
                  "resolve", "namespace", "range", "cycler"]
@@ -1265,6 +1277,9 @@ for _n in SPECIAL_NAMES:
         CALL_PATHS["ctx_named_in_macro_" + _n] = ("{%% macro cm() %%}{{ %s(@A@) }}{%% endmacro %%}{{ cm() }}" % _n, 1)
         CTX_BIND["ctx_named_in_macro_" + _n] = _n
 
+for _p in ("i18n_alias_ctx", "i18n_alias_ctx_in_macro", "i18n_alias_ctx_call_block"):
+    CTX_BIND[_p] = "gettext"
+
 # templates served by the loader
 LOADER_TEMPLATES = {
     "inc_call": "{{ @U@(@A@) }}",
@@ -1285,7 +1300,7 @@ REACH = {
     "loop_filtered_out": ("{% for e in [1, 2] if e > 5 %}@P@{% endfor %}", False),
 }
 _TOPLEVEL_ONLY = {"in_child_block", "in_child_super"}
-_HAS_BLOCK = {"in_block", "in_block_loop", "block_scoped", "self_block"}
+_HAS_BLOCK = {"in_block", "in_block_loop", "block_scoped", "self_block", "i18n_alias_block_set"}
 
 
 def build_call_case(env, is_async, ckey, pkey, akey, rkey, prelude="none"):
@@ -1313,6 +1328,10 @@ def build_call_case(env, is_async, ckey, pkey, akey, rkey, prelude="none"):
         # a block is rendered where it stands whatever encloses it at run time only for `if`;
         # keep block-defining paths unwrapped
         rkey = "plain"
+    if pkey.startswith("i18n_alias") and pkey not in CTX_BIND:
+        # a name set in the else branch of a for loop is local to that branch and not visible to context.resolve
+        # (engine scoping, not the sandbox's concern): use another reached wrapper there
+        rkey = rkey.replace("loop_else", "else_branch")
     # rkey may name two nested wrappers "outer+inner": reached iff both let control through
     wrap, reached = "@P@", True
     for rk in rkey.split("+"):
